@@ -58,7 +58,7 @@ class TlcResult:
             self.violated = "temporal"
         elif "Error: Deadlock reached" in out:
             self.violated = "deadlock"
-        elif re.search(r"Postcondition|POSTCONDITION", out) and "violated" in out:
+        elif re.search(r"Error: Postcondition \S+", out):
             self.violated = "postcondition"
         elif "Assumption" in out and "is false" in out:
             self.violated = "assumption"
@@ -132,6 +132,7 @@ class Ctx:
         if env:
             e.update({k: str(v) for k, v in env.items()})
         rc, out, wall = sh(cmd, cwd=cwd, env=e, timeout=timeout)
+        out = "\n".join(x for x in out.splitlines() if not re.match(r"(Parsing file|Semantic processing|Linting of|Picked up JAVA_TOOL)", x))
         shutil.rmtree(meta, ignore_errors=True)
         r = TlcResult(rc, out, wall)
         if count:
@@ -156,9 +157,9 @@ class Ctx:
             raise Infra("TLC module %s did not write its case table\n%s" % (module, r.out[-2000:]))
         return json.load(open(out)), r
 
-    def tlc_behaviours(self, module, cfg, num, depth, timeout=600, env=None, marker="HIST"):
+    def tlc_behaviours(self, module, cfg, num, depth, timeout=600, env=None, marker="HIST", workers=1):
         """simulate; the spec prints <<marker, ToJson(hist)>> lines at the end of each behaviour."""
-        r = self.tlc(module, cfg=cfg, simulate="num=%d" % num, extra=["-depth", str(depth)],
+        r = self.tlc(module, cfg=cfg, simulate="num=%d" % num, extra=["-depth", str(depth)], workers=workers,
                      timeout=timeout, env=env, expect_ok=False, count=False)
         beh = []
         seen = set()
